@@ -368,6 +368,8 @@ def c09(run):
                 "with position, and a byte-identical second dump. Non-trivial = every case; distinct by case.")
     mc_format(run)
     run.gen_replay("Gen_Format", gen_cfg(dict(Scope="sizes", MaxConsts=1)), ["replay-format"], "C09:sizes")
+    # every partition of a tiny file into reads, every partition with <= 2 cuts of a file holding a constant of every kind
+    run.gen_replay("Gen_Format", gen_cfg(dict(Scope="parts", MaxConsts=1)), ["replay-format"], "C09:partitions")
     for mod, c, kw in prog_sources_small(run)[: (2 if run.quick else 3)]:
         run.gen_replay(mod, c, ["replay-format"], "C09:" + c.split('"')[1], **kw)
     run.exhaustive = False
